@@ -158,3 +158,49 @@ def install(reg: Registry):
                      note='proved: purity (nothing allocated before the call is written), separation (everything reachable from the '
                           'result is fresh), termination. NOT proved here: absence of KeyError/TypeError/AttributeError on the result '
                           'records and the fold equation abs(result) == Steps(T) — both left to the bounded floor of C03'))
+
+
+# ---------------------------------------------------------------------------------------------------
+def install_lg_queries(reg: Registry):
+    install_lg_objects(reg)
+
+    # ---- LanguageGraphAsset.is_subasset_of (C15, C01)
+    def req(c):
+        return [('ANC.def.%d' % i, f) for i, f in enumerate(anc_axioms(c.old))] + [('wf_lang.single-acyclic', wf_inheritance(c.old))]
+
+    def inv(c: LCtx):
+        o, h = c.old, c.h
+        S = c.local('current_assets').t
+        s = A('s!is')
+        v = z3.Const('v!is', Val)
+        l = A('l!is')
+        return [
+            ('stack-fresh', z3.And(S >= o.alloc, S < h.alloc, h.cls(S) == CLS_LIST)),
+            ('old-lists', z3.And(FA([l], z3.Implies(l < o.alloc, h.bagof(l) == o.bagof(l)), [h.bagof(l)]),
+                                 FA([l], z3.Implies(l < o.alloc, h.len(l) == o.len(l)), [h.len(l)]))),
+            ('fields-same', z3.And(h.arr['f_super_assets'] == o.arr['f_super_assets'])),
+            ('stack-elems', FA([v], z3.Implies(h.bag(S, v) > 0, z3.And(is_VRef(v), ANC(c.self, v_a(v)))), [h.bag(S, v)])),
+            ('target-still-reachable', z3.Implies(ANC(c.self, c.target_asset),
+                                                  z3.Exists([s], z3.And(h.cnt(S, s) > 0, ANC(s, c.target_asset))))),
+            ('at-most-one', z3.And(h.len(S) <= 1, h.len(S) >= 0)),
+            ('top', z3.Implies(h.len(S) == 1, is_VRef(h.at(S, 0)))),
+        ]
+
+    def variant(c: LCtx):
+        h = c.h
+        S = c.local('current_assets').t
+        return z3.If(h.len(S) >= 1, 1 + ldepth(v_a(h.at(S, 0))), 0)
+
+    reg.add(Contract(ML + ':LanguageGraphAsset.is_subasset_of', {'self': Obj(LGA), 'target_asset': Obj(LGA)}, returns=T.bool,
+                     requires=req, ensures=lambda c: [('def', c.res == ANC(c.self, c.target_asset))],
+                     modifies=LIST_ARRAYS + ('cls', 'own_obj'), allocates=True,
+                     loops={0: LoopSpec(inv, variant=variant)}, props=('C15', 'C01'),
+                     note='equality of language-graph assets is identity (EQ-ID: asset names are unique)'))
+
+
+_install_l0 = install
+
+
+def install(reg: Registry):
+    _install_l0(reg)
+    install_lg_queries(reg)
